@@ -28,7 +28,11 @@ impl Case {
 
     pub fn remote_path(&self, uri: &str) -> PathBuf {
         let rest = uri.strip_prefix("rsync://").expect("rsync uri");
-        self.dir.join("remote").join(rest)
+        // the authority is case-insensitive (as in the fake rsync)
+        match rest.split_once('/') {
+            Some((host, path)) => self.dir.join("remote").join(host.to_ascii_lowercase()).join(path),
+            None => self.dir.join("remote").join(rest.to_ascii_lowercase()),
+        }
     }
 
     /// Replaces the remote content with the image's files.
@@ -52,7 +56,7 @@ impl Case {
 
     /// Marks a module as unreachable (the fake rsync exits non-zero).
     pub fn set_unreachable(&self, host: &str, module: &str, on: bool) {
-        let p = self.dir.join("unreachable").join(host);
+        let p = self.dir.join("unreachable").join(host.to_ascii_lowercase());
         if on {
             fs::create_dir_all(&p).unwrap();
             fs::write(p.join(module), b"x").unwrap();
@@ -139,6 +143,14 @@ pub fn run_initial(config: &Config) -> Result<(), String> {
     let engine = engine(config, false)?;
     ValidationReport::process(&engine, config, true)
         .map(|_| ()).map_err(|e| format!("run failed (fatal={})", e.is_fatal()))
+}
+
+/// One validation run, returning what the server hands to
+/// `SharedHistory::update`.
+pub fn run_report(config: &Config) -> Result<(ValidationReport, Metrics), String> {
+    let engine = engine(config, false)?;
+    ValidationReport::process(&engine, config, false)
+        .map_err(|e| format!("run failed (fatal={})", e.is_fatal()))
 }
 
 /// One validation run on an existing engine.
